@@ -25,6 +25,7 @@ func init() {
 			"(E7) no panic call and no unchecked type assertion is reachable from the goroutine roles; " +
 			"(E8) with a stored error other than io.EOF, no return of Err that can be reached yields a possibly-nil value; " +
 			"(E9) the cached block's string table and parameters are reset before every block (shared with C01.R3), so the range checks of string references run against the block being decoded and a block without a string table is rejected instead of borrowing the previous block's strings. " +
+			"(E10) while one DenseNodes / Way / Relation message is decoded no iterator left over from an earlier group can be used (shared with C01.R2): a damaged group that lacks a mandatory column (ids, lat, lon) ends in the 'did not contain' error instead of being decoded from the previous group's column, because presence is established by state set while this message is scanned and not by cached fields that survive groups. " +
 			"NOT decided: that the delivered prefix is correct (C01/C02), behaviour inside protoscan/protobuf/zlib (including whether a decoding library could itself return io.EOF), hangs inside libraries, memory exhaustion from huge declared sizes, column-length mismatches that neither index out of range nor exhaust an iterator, numeric thresholds other than the constant bounds of E3 and the `raw_size + c` form of E4.",
 		Assumptions: []string{"go/types, go/cfg (x/tools v0.29.0)",
 			"protoscan.Iterator.Count(WireTypeVarint) >= number of successful varint reads of that iterator; an exhausted iterator returns an error (read in protoscan v0.2.1 iterator.go/scalar.go)",
@@ -43,10 +44,11 @@ func init() {
 			{ID: "E6", Floor: 12, Doc: "index safety in everything reachable from the decoder goroutines", Run: c06E6},
 			{ID: "E7", Floor: 12, Doc: "no panic / unchecked type assertion reachable from the goroutine roles", Run: c06E7},
 			{ID: "E8", Floor: 2, Doc: "Err maps only io.EOF to nil", Run: c06E8},
+			{ID: "E10", Floor: 18, Doc: "a group or element that lacks a column is never decoded from an iterator that survives from an earlier group: presence of mandatory columns is established per message, not from cached state (shared with C01.R2)", Run: c01R2},
 			{ID: "E9", Floor: 6, Doc: "string references are checked against the current block's string table: cached block parameters are reset before each block (shared with C01.R3)", Run: c01R3},
 		},
-		Benign: append(append(append(append([]core.Mutant{}, c06Benign...), c06Benign2...), c06Benign3...), c06Benign4...),
-		Mutants: append(append([]core.Mutant{}, c06Mutants2...), []core.Mutant{
+		Benign: append(append(append(append(append([]core.Mutant{}, c06Benign...), c06Benign2...), c06Benign3...), c06Benign4...), c06Benign5...),
+		Mutants: append(append(append([]core.Mutant{}, c06Mutants2...), c06Mutants3...), []core.Mutant{
 			{Name: "drop-iterator-error", File: "osmpbf/decode_data.go", Find: "\t\t\tdec.lats, err = msg.Iterator(dec.lats)\n\t\t\tfoundLats = true", Replace: "\t\t\tdec.lats, _ = msg.Iterator(dec.lats)\n\t\t\tfoundLats = true", ExpectRule: "E1", ExpectConstruct: "scanDenseNodes"},
 			{Name: "drop-msg-err", File: "osmpbf/decode_data.go", Find: "\tif msg.Err() != nil {\n\t\treturn msg.Err()\n\t}\n\n\t// we need the offsets", Replace: "\t// we need the offsets", ExpectRule: "E1", ExpectConstruct: "scanPrimitiveBlock"},
 			{Name: "overwrite-err-before-test", File: "osmpbf/decode_data.go", Find: "\t\t\tdec.vals, err = msg.Iterator(dec.vals)\n\t\t\tfoundVals = true\n\t\tcase 4: // info\n\t\t\td, err := msg.MessageData()\n\t\t\tif err != nil {\n\t\t\t\treturn nil, err\n\t\t\t}\n\n\t\t\tinfo := protoscan.New(d)\n\t\t\tfor info.Next() {\n\t\t\t\tswitch info.FieldNumber() {\n\t\t\t\tcase 1:\n\t\t\t\t\tv, err := info.Int32()\n\t\t\t\t\tif err != nil {\n\t\t\t\t\t\treturn nil, err\n\t\t\t\t\t}\n\t\t\t\t\tway.Version", Replace: "\t\t\tdec.vals, err = msg.Iterator(dec.vals)\n\t\t\tfoundVals = true\n\t\t\terr = nil\n\t\tcase 4: // info\n\t\t\td, err := msg.MessageData()\n\t\t\tif err != nil {\n\t\t\t\treturn nil, err\n\t\t\t}\n\n\t\t\tinfo := protoscan.New(d)\n\t\t\tfor info.Next() {\n\t\t\t\tswitch info.FieldNumber() {\n\t\t\t\tcase 1:\n\t\t\t\t\tv, err := info.Int32()\n\t\t\t\t\tif err != nil {\n\t\t\t\t\t\treturn nil, err\n\t\t\t\t\t}\n\t\t\t\t\tway.Version", ExpectRule: "E1", ExpectConstruct: "scanWays"},
@@ -67,6 +69,8 @@ func init() {
 			{Name: "tags-sized-by-other-iterator", File: "osmpbf/decode_data.go", Find: "tags := make(osm.Tags, keys.Count(protoscan.WireTypeVarint))", Replace: "tags := make(osm.Tags, vals.Count(protoscan.WireTypeVarint))", ExpectRule: "E6", ExpectConstruct: "tags[index]"},
 			{Name: "bbox-deref-without-required", File: "osmpbf/decode.go", Find: "if headerBlock.OsmosisReplicationTimestamp != nil {\n\t\theader.ReplicationTimestamp", Replace: "if headerBlock.OsmosisReplicationSequenceNumber != nil {\n\t\theader.ReplicationTimestamp", ExpectRule: "E6", ExpectConstruct: "OsmosisReplicationTimestamp"},
 			{Name: "panic-on-plain-nodes", File: "osmpbf/decode_data.go", Find: "return errors.New(\"osmpbf: plain (non-dense) node groups are not supported\")", Replace: "panic(\"nodes are not supported, currently untested\")", ExpectRule: "E7", ExpectConstruct: "scanPrimitiveGroup"},
+			{Name: "ids-presence-from-surviving-state", File: "osmpbf/decode_data.go", Find: "\tif !foundIds {\n", Replace: "\tif !foundIds && dec.ids == nil {\n", ExpectRule: "E10", ExpectConstruct: "dec.ids"},
+			{Name: "lats-presence-from-surviving-state", File: "osmpbf/decode_data.go", Find: "\tif !foundLats {\n", Replace: "\tif dec.lats == nil && !foundLats {\n", ExpectRule: "E10", ExpectConstruct: "dec.lats"},
 			{Name: "stale-string-table", File: "osmpbf/decode_data.go", Find: "\t\tdec.primitiveBlock.Stringtable.S = dec.primitiveBlock.Stringtable.S[:0]\n", Replace: "", ExpectRule: "E9", ExpectConstruct: "reset@"},
 			{Name: "err-swallows-unexpected-eof", File: "osmpbf/scanner.go", Find: "if s.err == io.EOF {\n\t\treturn nil\n\t}", Replace: "if s.err == io.EOF || s.err == io.ErrUnexpectedEOF {\n\t\treturn nil\n\t}", ExpectRule: "E8", ExpectConstruct: "osmpbf"},
 		}...),
